@@ -104,37 +104,21 @@ Print Assumptions C08_otto_define_keeps_invariant.
    holes, inherited index properties, a counted length getter), every argument list and every callback script,
    exchanging the clamps
    changes neither the result nor the receiver nor the callback log, whatever [[DefineOwnProperty]] is used;
-   C08_define_refines above relates the two [[DefineOwnProperty]] functions.  Apart from the conversion order inside lastIndexOf and join (below) there is no other
-   difference left between the model of otto and ES5 (toString calls join without arguments and the callback methods read length
-   before the IsCallable test in both, reverse Gets both values before both presence tests in both, since 4b9c107,
-   fcc8076 and c7552c5). *)
+   C08_define_refines above relates the two [[DefineOwnProperty]] functions.  There is no other difference left
+   between the model of otto and ES5 (toString calls join without arguments and the callback methods read length
+   before the IsCallable test in both, reverse Gets both values before both presence tests in both, lastIndexOf leaves
+   fromIndex alone on an empty receiver and join reads length before it converts the separator in both, since 4b9c107,
+   fcc8076, c7552c5, 0a77c0d and 33e9d82). *)
 Theorem C08_methods_refine :
-  otto = with_otto_clamps otto_def_array true true /\ es5 = with_es5_clamps def_array false false /\
-  forall df lc js m args s,
-    match method (with_otto_clamps df lc js) m, method (with_es5_clamps df lc js) m with
+  otto = with_otto_clamps otto_def_array /\ es5 = with_es5_clamps def_array /\
+  forall df m args s,
+    match method (with_otto_clamps df) m, method (with_es5_clamps df) m with
     | Some f1, Some f2 => f1 args s = f2 args s
     | None, None => True
     | _, _ => False
     end.
 Proof. split; [reflexivity | split; [reflexivity | exact methods_clamps]]. Qed.
 Print Assumptions C08_methods_refine.
-
-(* the two booleans above are the places where builtin_array.go is not the step list.  First: lastIndexOf converts fromIndex
-   (15.4.4.15 step 5) before the "len is 0, return -1" exit (step 4).  Witness: [].lastIndexOf(1, o) where o.valueOf
-   throws: ES5 returns -1 without touching o, otto runs valueOf and throws *)
-Theorem C08_lastindexof_order_refuted : exists args s, m_lastindexof otto args s <> m_lastindexof es5 args s.
-Proof.
-  exists [AV (VNum 1); AO 1 0 true], (mkS (lit_obj [] []) [] [] false []). vm_compute. discriminate.
-Qed.
-Print Assumptions C08_lastindexof_order_refuted.
-(* second: join converts the separator (15.4.4.5 step 5) before it reads length (steps 2-3).  Witness: an array-like
-   whose length is a counting getter, joined with a separator object: ES5 logs [9] then [5; 1], otto [5; 1] then [9] *)
-Theorem C08_join_order_refuted : exists args s, m_join otto args s <> m_join es5 args s.
-Proof.
-  exists [AO 1 1 false], (mkS (mkO false true [(KLen, mkP (VNum 1) true true true); (KI 0, mkP (VNum 7) true true true)] []) [] [] true []).
-  vm_compute. discriminate.
-Qed.
-Print Assumptions C08_join_order_refuted.
 
 (* ToString(n) of every integer n >= 0 is classified as the name KI n (so the 15.4.4 algorithms, which
    address elements by ToString(k), address exactly KI k), it is an array index exactly when n < 2^32 - 1,
